@@ -234,6 +234,16 @@ def grammar_cases():
     for tag in ["ab", "", " 58", "-1", "5 8", "0x3A", "58.0", "+58", "058"]:
         b2 = body[:-1] + [(tag, "v")]
         out.append((f"tag={tag!r}", fixwire.build(b2)))
+    # frames whose BodyLength and CheckSum were counted over CHARACTERS and written as UTF-8 (what this library's own send path emits
+    # for non-ASCII text - C02's listed finding): inconsistent with their bytes, so never a message; likewise with a damaged lead byte
+    for text in ("café", "Zürich–Ærø", "ÿ"):
+        body_s = "35=D\x0149=%s\x0156=%s\x0134=2\x0152=20240101-00:00:00.000\x0111=g1\x0158=%s\x01" % (S, T, text)
+        head = "8=FIX.4.4\x019=%d\x01" % len(body_s)
+        fr = (head + body_s + "10=%03d\x01" % (sum(ord(c) for c in head + body_s) % 256)).encode("utf-8")
+        out.append((f"lengths-counted-in-characters:{text[:4]}", fr))
+        i = fr.find(b"\xc3")
+        if i >= 0:
+            out.append((f"lengths-counted-in-characters:{text[:4]}:lead-byte-damaged", fr[:i] + b"\xc7" + fr[i + 1:]))
     # frames the decoder returns but the session layer chokes on
     for sq in ("2x", "", "-2", "2.0", " 2", "9" * 4400):
         b2 = [(t, (sq if t == 34 else v)) for t, v in body]
